@@ -24,8 +24,8 @@ Record case := mkCase {
   k_rank_t : list N; k_rank_r : list N; k_rank_c : list N;    (* keys in SortKeys order *)
   k_resvals : list (N * list bytes); k_fields : list bytes;   (* residue key -> flattened field values *)
   k_obs : list otab_obs;
-  k_osum : list (list b64 * (b64 * b64 * b64));               (* sample -> centre, lo, hi *)
-  k_ocmp : list (list b64 * list b64 * (b64 * N * N * b64));  (* base sample, sample -> comparison *)
+  k_osum : list (N * list b64 * (b64 * b64 * b64));               (* table, sample -> centre, lo, hi *)
+  k_ocmp : list (N * list b64 * list b64 * (b64 * N * N * b64));  (* table, base sample, sample -> comparison *)
   k_bin_csv : bool; k_bin_text : bool                         (* the benchstat binary printed what the in-process tables render to *)
 }.
 
@@ -76,9 +76,9 @@ Definition decode (s : sx) : option case :=
       do rt <- as_list as_N rt; do rr <- as_list as_N rr; do rc <- as_list as_N rc;
       do rv <- as_list (as_pair as_N (as_list as_b)) rv; do fl <- as_list as_b fl;
       do obs <- as_list as_otab obs;
-      do osum <- as_list (as_pair (as_list as_f64) as_f3) osum;
+      do osum <- as_list (as_pair (as_pair as_N (as_list as_f64)) as_f3) osum;
       do ocmp <- as_list (fun s => match s with
-                                   | SL [a; b; c] => do a <- as_list as_f64 a; do b <- as_list as_f64 b; do c <- as_cmp c; Some (a, b, c)
+                                   | SL [a; b; c] => do a <- as_pair as_N (as_list as_f64) a; do b <- as_list as_f64 b; do c <- as_cmp c; Some (a, b, c)
                                    | _ => None end) ocmp;
       do b1 <- as_bool b1; do b2 <- as_bool b2;
       Some (mkCase ms rt rr rc rv fl obs osum ocmp b1 b2)
@@ -96,15 +96,15 @@ Definition rank_of (l : list N) (k : N) : N := index_of k l 0%N.
 Definition flist_same (a b : list b64) : bool := list_eqb b64_same a b.
 Definition nlist_eqb (a b : list N) : bool := list_eqb N.eqb a b.
 
-Fixpoint lookup_sum (tbl : list (list b64 * (b64 * b64 * b64))) (s : list b64) : option (b64 * b64 * b64) :=
+Fixpoint lookup_sum (tbl : list (N * list b64 * (b64 * b64 * b64))) (t : N) (s : list b64) : option (b64 * b64 * b64) :=
   match tbl with
   | [] => None
-  | (k, v) :: tbl' => if flist_same k s then Some v else lookup_sum tbl' s
+  | (kt, k, v) :: tbl' => if (kt =? t)%N && flist_same k s then Some v else lookup_sum tbl' t s
   end.
-Fixpoint lookup_cmp (tbl : list (list b64 * list b64 * (b64 * N * N * b64))) (a b : list b64) :=
+Fixpoint lookup_cmp (tbl : list (N * list b64 * list b64 * (b64 * N * N * b64))) (t : N) (a b : list b64) :=
   match tbl with
   | [] => None
-  | (ka, kb, v) :: tbl' => if flist_same ka a && flist_same kb b then Some v else lookup_cmp tbl' a b
+  | (kt, ka, kb, v) :: tbl' => if (kt =? t)%N && flist_same ka a && flist_same kb b then Some v else lookup_cmp tbl' t a b
   end.
 
 Fixpoint lookup_resvals (tbl : list (N * list bytes)) (k : N) : list bytes :=
@@ -119,8 +119,8 @@ Section WithCase.
   Definition rk_r := rank_of (k_rank_r c).
   Definition rk_c := rank_of (k_rank_c c).
   Definition nan : b64 := S754_nan.
-  Definition centre (s : list b64) : b64 :=
-    match lookup_sum (k_osum c) s with Some (ce, _, _) => ce | None => nan end.
+  Definition centre (t : N) (s : list b64) : b64 :=
+    match lookup_sum (k_osum c) t s with Some (ce, _, _) => ce | None => nan end.
   (* NaN-ness of go-moremath's GeoMean: empty or some x <= 0 (or NaN) *)
   Definition geomean_stub (l : list b64) : b64 :=
     match l with
@@ -128,8 +128,11 @@ Section WithCase.
     | _ => if forallb (fun x => b64_lt b64_zero x) l then b64_one else nan
     end.
 
+  (* the unit's assumption belongs to the table: per-table centre function *)
   Definition expected_model : list otab :=
-    to_tables rk_t rk_r rk_c centre geomean_stub (build (k_meas c)).
+    let ts := build (k_meas c) in
+    somes (map (fun k => option_map (fun tb => table_out rk_r rk_c (centre k) geomean_stub tb) (find_tab k ts))
+               (sort_by rk_t (map bt_key ts))).
 
   (** the specification, straight from the measurement list *)
   Definition spec_tab (t : N) : btab :=
@@ -142,7 +145,7 @@ Section WithCase.
       | l => [mkBcell r cl (map m_v l) (dedup (map m_res l))]
       end) cols) rows).
   Definition expected_spec : list otab :=
-    map (fun t => table_out rk_r rk_c centre geomean_stub (spec_tab t))
+    map (fun t => table_out rk_r rk_c (centre t) geomean_stub (spec_tab t))
         (sort_by rk_t (dedup (map m_t (k_meas c)))).
 
   (** comparing an expected table with the observation *)
@@ -153,18 +156,18 @@ Section WithCase.
   Definition vary_names (res : list N) : list bytes :=
     map (fun i => nth i (k_fields c) []) (nonsingular (lookup_resvals (k_resvals c)) (length (k_fields c)) res).
 
-  Definition cell_matches (e : ocell) (o : ocell_obs) : bool :=
+  Definition cell_matches (t : N) (e : ocell) (o : ocell_obs) : bool :=
     (oc_r e =? o_r o)%N && (oc_c e =? o_c o)%N
     && flist_same (oc_sample e) (fsort (o_sample o))
     && Bool.eqb (match oc_base e with Some _ => true | None => false end) (o_has_base o)
-    && (match lookup_sum (k_osum c) (oc_sample e) with
+    && (match lookup_sum (k_osum c) t (oc_sample e) with
         | Some (ce, lo, hi) => b64_same ce (o_centre o) && b64_same lo (o_lo o) && b64_same hi (o_hi o)
         | None => false
         end)
     && (match oc_base e, o_cmp o with
         | None, None => true
         | Some bs, Some (p, n1, n2, a) =>
-            match lookup_cmp (k_ocmp c) bs (oc_sample e) with
+            match lookup_cmp (k_ocmp c) t bs (oc_sample e) with
             | Some (p', n1', n2', a') => b64_same p p' && (n1 =? n1')%N && (n2 =? n2')%N && b64_same a a'
             | None => false
             end
@@ -227,7 +230,7 @@ Section WithCase.
   Definition tab_matches (e : otab) (o : otab_obs) : bool :=
     (ot_key e =? t_key o)%N
     && nlist_eqb (ot_rows e) (t_rows o) && nlist_eqb (ot_cols e) (t_cols o)
-    && all2 cell_matches (ot_cells e)
+    && all2 (cell_matches (t_key o)) (ot_cells e)
          (* observed cells arrive in map order: arrange them row-major like the expectation *)
          (flat_map (fun r => flat_map (fun cl => filter (fun o => (o_r o =? r)%N && (o_c o =? cl)%N) (t_cells o)) (t_cols o)) (t_rows o))
     && Nat.eqb (length (ot_cells e)) (length (t_cells o))
